@@ -495,6 +495,10 @@ impl CancelWalk for WalkTree {
         });
         if self.is_dir {
             self.input.skip_current_dir();
+            // The directory has been discarded. If traversal is cancelled again before the next
+            // entry is read (by another filter that also discards this tree), then
+            // `skip_current_dir` must not be called again: it would discard the parent directory.
+            self.is_dir = false;
         }
     }
 }
